@@ -121,7 +121,8 @@ partial def genTRef (cur : String) (depth : Nat) (allowOpt : Bool) (forceAnon : 
 def genIntLit (v : Int) : G IntLit := do
   let base ← pickG [10, 10, 16, 2]
   let us ← coin 1 4
-  return ⟨decide (v < 0), base, v.natAbs, us⟩
+  -- `underscores` is only recorded when the printer really writes one (three digits or more)
+  return ⟨decide (v < 0), base, v.natAbs, us && (natDigits base 200 v.natAbs).length ≥ 3⟩
 
 /-- distinct tags on a subset of the optional members -/
 def assignTags (opts : List Bool) : G (List (Option IntLit)) := do
